@@ -440,7 +440,12 @@ func checkAndExtractFieldType(paths []string, typ reflect.Type) (extracted refle
 			continue
 		}
 
-		for extracted.Kind() == reflect.Ptr {
+		if extracted.Kind() == reflect.Ptr {
+			// at request time a path can only be followed through a single level of pointer
+			if extracted.Elem().Kind() == reflect.Ptr {
+				return nil, false, fmt.Errorf("type[%v] is a nested pointer, field[%s] cannot be reached through it", extracted, field)
+			}
+
 			extracted = extracted.Elem()
 		}
 
